@@ -34,7 +34,7 @@ import (
 )
 
 func init() {
-	register(&Prop{ID: "C46", Gen: genC46, Run: runC46})
+	register(&Prop{ID: "C46", Gen: genC46, Run: runC46, Timeout: 3 * time.Minute})
 }
 
 const c46Pools = 4
